@@ -1,5 +1,5 @@
 SPECIFICATION Spec
-CONSTANT Depth = 8
+CONSTANT Depth = 9
 CONSTANT MaxW = 4
 CONSTRAINT Bound
 INVARIANT PrefixInv
